@@ -1607,13 +1607,21 @@ def frame_policy(repo, tier):
         sites = A.persistent_writes(q, owner)
         obls.append(ground_obligation(f"C20/_pypdf_aes_fallback.py::{role}/policy#keeps-no-working-state-across-calls", not sites,
                                       "writes to objects that outlive the call: " + "; ".join(sites[:4]), AES, kind="policy", definite=False))
-    nested = [q for q in A.fns if ".<locals>." in q]
+    # the CryptAES methods: the functions the installation code defines (nested) or refers to (module level) besides the drivers
+    import ast
+    driver_qs = {roles.get(r, (None,))[0] for r in DRIVERS}
+    methods = [q for q in A.fns if ".<locals>." in q]
+    inst = mod.functions.get("patch_pypdf_fallback_aes")
+    if inst is not None:
+        methods += [n.id for n in ast.walk(inst) if isinstance(n, ast.Name) and isinstance(n.ctx, ast.Load) and n.id in A.fns
+                    and n.id not in driver_qs and n.id not in methods]
     sites = []
-    for q in nested:
+    for q in methods:
         sites += [x for x in A.persistent_writes(q, owner, constructor=q.endswith("init") or q.endswith("init__")) if x not in sites]
-    if nested:
-        obls.append(ground_obligation("C20/_pypdf_aes_fallback.py::CryptAES/policy#keeps-no-working-state-across-calls", not sites,
-                                      "writes to objects that outlive the call: " + "; ".join(sites[:4]), AES, kind="policy", definite=False))
+    ok = bool(methods) and not sites
+    why = "writes to objects that outlive the call: " + "; ".join(sites[:4]) if methods else "the functions installed as CryptAES methods were not found"
+    obls.append(ground_obligation("C20/_pypdf_aes_fallback.py::CryptAES/policy#keeps-no-working-state-across-calls", ok, why, AES,
+                                  kind="policy", definite=False))
     return {"obligations": obls}
 
 
